@@ -1039,6 +1039,62 @@ def main():
         parts.append(f'(* ---- sizes checked and copied by {cls}::{method} ---- *)\n')
         parts.append(f.translate_copy(f'{cls}_{coq_ident(method)}_copy'))
 
+    def do_throttle_sites(fns):
+        """every rate-limited report site (a block with `static time_t prev_tm`, i.e. an expansion of LIMIT_CALL / DELAY_LIMIT_CALL) of the
+        listed functions: (function, ERRCODE_* constants mentioned in the limited body, calls in that body other than the exception callback)"""
+        sites = []
+        def is_site(n):
+            for c in n.get('inner', []):
+                if c.get('kind') == 'DeclStmt':
+                    for v in c.get('inner', []):
+                        if v.get('kind') == 'VarDecl' and v.get('name') == 'prev_tm' and v.get('storageClass') == 'static':
+                            return True
+            return False
+        def codes_calls(n, codes, calls):
+            if n.get('kind') == 'DeclRefExpr' and n.get('referencedDecl', {}).get('kind') == 'EnumConstantDecl':
+                codes.append(n['referencedDecl']['name'])
+            if n.get('kind') in ('CallExpr', 'CXXMemberCallExpr', 'CXXOperatorCallExpr'):
+                c = n['inner'][0]
+                while c.get('kind') in ('ImplicitCastExpr', 'ParenExpr'):
+                    c = c['inner'][0]
+                name = c.get('name') if c.get('kind') == 'MemberExpr' else c.get('referencedDecl', {}).get('name')
+                if n.get('kind') == 'CXXOperatorCallExpr':
+                    a = n['inner'][1] if len(n['inner']) > 1 else {}
+                    while a.get('kind') in ('ImplicitCastExpr', 'ParenExpr'):
+                        a = a['inner'][0]
+                    name = (a.get('name') or '?') + '()'
+                if name and name not in ('runExceptionCallback', 'cb_excep_()', 'Error', 'operator()'):
+                    calls.append(name)
+            for c in n.get('inner', []):
+                if isinstance(c, dict):
+                    codes_calls(c, codes, calls)
+        def walk(fname, n):
+            if n.get('kind') == 'CompoundStmt' and is_site(n):
+                ifs = [c for c in n.get('inner', []) if c.get('kind') == 'IfStmt']
+                codes, calls = [], []
+                for i in ifs:
+                    # the assignment prev_tm = cur_tm is a BinaryOperator, not a call
+                    codes_calls(i['inner'][1], codes, calls)
+                sites.append((fname, sorted(set(codes)), sorted(set(calls))))
+                return
+            for c in n.get('inner', []):
+                if isinstance(c, dict):
+                    walk(fname, c)
+        for cls, method in fns:
+            m = None
+            for doc in tr.ast(f'{cls}::{method}', ['rs_driver/api/lidar_driver.hpp']):
+                if doc['kind'] == 'CXXMethodDecl' and doc.get('name') == method and any(x['kind'] == 'CompoundStmt' for x in doc.get('inner', [])):
+                    m = doc
+            if m is None:
+                raise Unsupported(f'{cls}::{method} not found')
+            walk(f'{cls}::{method}', m)
+        q = lambda t: '"' + t + '"%string'
+        parts.append('(* ---- rate-limited report sites (expansions of LIMIT_CALL / DELAY_LIMIT_CALL) ---- *)\n')
+        parts.append('Definition throttle_sites : list (string * list string * list string) :=\n  [' +
+                     ';\n   '.join(f'({q(f)}, [{"; ".join(q(c) for c in cs)}], [{"; ".join(q(c) for c in ca)}])' for f, cs, ca in sites) + '].\n')
+
+    jobs += [('throttle_sites', lambda: do_throttle_sites([('Decoder', 'processMsopPkt'), ('Decoder', 'processDifopPkt'),
+                                                           ('LidarDriverImpl', 'getPointCloud'), ('LidarDriverImpl', 'packetPut')]))]
     I = 'rs_driver/driver/input/'
     def do_loop_copy(cls, method):
         m = None
